@@ -17,7 +17,9 @@ import os
 import random
 
 PROPERTY = "C01"
-EXTRAS = ("b_factor", "flag", "label")
+EXTRAS = ("b_factor", "flag", "label", "vec", "grid", "names")
+# specification: ShapedExtras / PerAtomShape - optional annotations whose per-atom value is an array
+SHAPED = {"vec": ((3,), "f"), "grid": ((2, 2), "iu"), "names": ((2,), "U")}
 _G = None
 
 
@@ -62,7 +64,67 @@ def extra_value(name, uid):
         return bool(uid % 2)
     if name == "label":
         return f"L{uid:02d}"
+    # array-valued (nested lists of the per-atom shape); exact in float32; the strings of
+    # concatenation operands are wider than those of constructed atoms
+    if name == "vec":
+        return [float(uid) + 0.5, float(2 * uid), -float(uid)]
+    if name == "grid":
+        return [[uid, uid + 1], [2 * uid, -uid]]
+    if name == "names":
+        return [f"NAME{uid}", f"M{uid}"] if 51 <= uid <= 59 else [f"N{uid:02d}", f"M{uid:02d}"]
     raise KeyError(name)
+
+
+def extra_array(name, uids):
+    """The annotation array of an optional category for the atoms `uids` (specification:
+    AnnotShape = (n,) + PerAtomShape)."""
+    np = _np()
+    vals = [extra_value(name, u) for u in uids]
+    if name in SHAPED:
+        shape = (len(uids),) + SHAPED[name][0]
+        if name == "vec":
+            return np.array(vals, dtype=np.float32).reshape(shape)
+        if name == "grid":
+            return np.array(vals, dtype=np.int64).reshape(shape)
+        wide = any(51 <= u <= 59 for u in uids)
+        return np.array(vals, dtype="U6" if wide else "U3").reshape(shape)
+    dt = {"b_factor": int if all(isinstance(v, int) for v in vals) else float,
+          "flag": bool, "label": "U3"}[name]
+    return np.array(vals, dtype=dt)
+
+
+def set_extra(obj, name, uids):
+    """Give obj the optional annotation `name`: through add_annotation() with a sub-array dtype
+    followed by filling in place ("vec" on an object that does not have it), otherwise through
+    set_annotation() with the complete array."""
+    np = _np()
+    arr = extra_array(name, uids)
+    if name == "vec" and name not in obj.get_annotation_categories():
+        obj.add_annotation(name, dtype=(np.float32, 3))
+        obj.get_annotation(name)[...] = arr
+    else:
+        obj.set_annotation(name, arr)
+
+
+def atom_extras(atom):
+    """Optional annotations an Atom object carries, each required to hold the value of the atom's
+    uid (specification: AtomOut, 4th component)."""
+    np = _np()
+    uid = int(atom.atom_name[1:])
+    out = []
+    for name in EXTRAS:
+        try:
+            v = getattr(atom, name)
+        except AttributeError:
+            continue
+        want = extra_value(name, uid)
+        if name in SHAPED:
+            v = np.asarray(v)
+            good = v.shape == SHAPED[name][0] and v.dtype.kind in SHAPED[name][1] and v.tolist() == want
+        else:
+            good = bool(v == want)
+        out.append(name if good else f"{name}!not-the-atoms-value")
+    return sorted(out)
 
 
 def name_of(uid):
@@ -72,7 +134,7 @@ def name_of(uid):
 def make_atom(uid, tag, cell, ex, float_b=False):
     import biotite.structure as struc
 
-    kw = {name: extra_value(name, uid) for name in ex}
+    kw = {name: (extra_array(name, [uid])[0] if name in SHAPED else extra_value(name, uid)) for name in ex}
     if float_b and "b_factor" in kw:
         kw["b_factor"] = float(kw["b_factor"])  # array() takes the dtype from the first atom
     return struc.Atom(cell_coord(cell), atom_name=name_of(uid), res_id=int(tag), chain_id=chain_of(uid),
@@ -93,12 +155,22 @@ def build(S, via_constructors=False):
     n = len(S["a"])
     d = len(S["z"])
     ex = list(S["ex"])
+    uids = [u for u, _ in S["a"]]
     if via_constructors and n > 0 and d > 0:
+        # array() derives the dtype of a category from type(value) of the first Atom: Atoms with
+        # array-valued annotations give an object array, which is outside the statement
+        # (construction from Atoms is not one of its operations) - the array-valued categories
+        # are added to the constructed arrays with add_annotation / set_annotation
+        scalar_ex = [e for e in ex if e not in SHAPED]
         arrays = []
         for k in range(d):
             fb = any(51 <= u <= 59 for u, _ in S["a"])
-            atoms = [make_atom(u, t, S["z"][k][i], ex, fb) for i, (u, t) in enumerate(S["a"])]
-            arrays.append(struc.array(atoms))
+            atoms = [make_atom(u, t, S["z"][k][i], scalar_ex, fb) for i, (u, t) in enumerate(S["a"])]
+            arr = struc.array(atoms)
+            for name in ex:
+                if name in SHAPED:
+                    set_extra(arr, name, uids)
+            arrays.append(arr)
         obj = arrays[0] if S["kind"] == "array" else struc.stack(arrays)
     else:
         obj = struc.AtomArray(n) if S["kind"] == "array" else struc.AtomArrayStack(d, n)
@@ -108,10 +180,7 @@ def build(S, via_constructors=False):
         obj.res_name = np.array(["RES"] * n, dtype="U5")
         obj.element = np.array(["C"] * n, dtype="U2")
         for name in ex:
-            vals = [extra_value(name, u) for u, _ in S["a"]]
-            dt = {"b_factor": int if all(isinstance(v, int) for v in vals) else float,
-                  "flag": bool, "label": "U3"}[name]
-            obj.set_annotation(name, np.array(vals, dtype=dt))
+            obj.set_annotation(name, extra_array(name, uids))
         co = np.array([[cell_coord(c) for c in row] for row in S["z"]], dtype=np.float32).reshape(d, n, 3)
         obj.coord = co[0] if S["kind"] == "array" else co
     if S["box"]:
@@ -190,7 +259,16 @@ def _project(obj):
     ex = []
     for name in EXTRAS:
         if name in cats:
-            vals = obj.get_annotation(name).tolist()
+            arr = obj.get_annotation(name)
+            # specification: AnnotShape(S, name) = (n,) + PerAtomShape(name)
+            pshape, kinds = SHAPED.get(name, ((), None))
+            if arr.shape != (n,) + pshape:
+                ex.append(f"{name}!shape{tuple(arr.shape)}")
+                continue
+            if kinds is not None and arr.dtype.kind not in kinds:
+                ex.append(f"{name}!dtype-{arr.dtype}")
+                continue
+            vals = arr.tolist()
             good = all(isinstance(u, int) and v == extra_value(name, u) for (u, _), v in zip(a, vals))
             ex.append(name if good else f"{name}!not-following-atoms")
     if obj.chain_id.tolist() != [chain_of(u) if isinstance(u, int) else None for u, _ in a]:
@@ -358,7 +436,7 @@ def apply_real(obj, op, arg):
                 r = obj[to_index(arg[1]), to_index(arg[2])]
             if isinstance(r, struc.Atom):
                 cell = _cells(np.asarray(r.coord)[None])[0]
-                return obj, "ok", [int(r.atom_name[1:]), int(r.res_id), cell]
+                return obj, "ok", [int(r.atom_name[1:]), int(r.res_id), cell, atom_extras(r)]
             return r, "ok", []
         if op == "concat":
             return obj + operand(obj, arg), "ok", []
@@ -405,7 +483,7 @@ def apply_real(obj, op, arg):
             tmp = obj[scalar_form(arg[0], arg[4])]
             obj[scalar_form(arg[0], arg[4])] = make_atom(arg[1], arg[2], arg[3], ex)
             cell = _cells(np.asarray(tmp.coord)[None])[0]
-            return obj, "ok", [int(tmp.atom_name[1:]), int(tmp.res_id), cell]
+            return obj, "ok", [int(tmp.atom_name[1:]), int(tmp.res_id), cell, atom_extras(tmp)]
         if op == "set_model":
             if kind != "stack":
                 raise TypeError("set_model is defined for stacks")
@@ -419,10 +497,7 @@ def apply_real(obj, op, arg):
         if op == "add_extra":
             o = obj
             uids = [int(x[1:]) for x in o.atom_name.tolist()]
-            vals = [extra_value(arg[0], u) for u in uids]
-            dt = {"b_factor": int if all(isinstance(v, int) for v in vals) else float,
-                  "flag": bool, "label": "U3"}[arg[0]]
-            o.set_annotation(arg[0], np.array(vals, dtype=dt))
+            set_extra(o, arg[0], uids)
             return o, "ok", []
         if op == "del_extra":
             o = obj
@@ -501,6 +576,8 @@ def check_step(obj2, oc, out, exp):
         eo = exp["out"]
         if isinstance(eo, (list, tuple)):
             eo = list(eo)
+            if len(eo) == 4:  # an Atom: uid, tag, cell, set of optional annotations
+                eo[3] = sorted(eo[3])
         if out != eo:
             bad.append("out")
         if not bad:
@@ -867,6 +944,21 @@ def _s2_graph(ctx, d, dotf, tag, limit, forms_required):
         nrej += st["oc"] == "Rejected"
     if nrej == 0:
         raise Vacuity("no refused call in the model")
+    # every operation must be taken on objects that carry array-valued annotations (ShapedExtras),
+    # arrays and stacks, and succeed there
+    ops_shaped = {}
+    for (src, lab, dst) in g.edges:
+        S0, st1 = states[ids[src]]["S"], states[ids[dst]]
+        if set(S0["ex"]) & set(SHAPED) and st1["oc"] == "ok":
+            key = f'{S0["kind"]}:{labels[lab_ix[lab]][0]}'
+            ops_shaped[key] = ops_shaped.get(key, 0) + 1
+    ctx.cov[f"s2_{tag}ok_transitions_on_shaped_annotations"] = ops_shaped
+    need_shaped = ({f"array:{o}" for o in need - {"new", "del_model", "set_model"}}
+                   | {f"stack:{o}" for o in need - {"new", "to_stack", "del_atom", "set_atom", "swap_atoms",
+                                                     "take_then_overwrite"}})
+    if forms_required and need_shaped - set(ops_shaped):
+        raise Vacuity(f"operations never taken on an object with array-valued annotations: "
+                      f"{sorted(need_shaped - set(ops_shaped))}")
     gfile = os.path.join(d, f"{tag}graph.json")
     with open(gfile, "w") as f:
         json.dump({"states": states, "labels": labels}, f)
@@ -929,6 +1021,18 @@ def run(ctx):
     for t in traces:
         count_forms([(p["obs"]["kind"], e["op"], e["arg"]) for p, e in zip(t, t[1:])], s3_forms)
     require_forms(s3_forms, "S3 (recorded histories)", False)
+    s3_shaped = {}
+    for t in traces:
+        for p, e in zip(t, t[1:]):
+            if set(p["obs"]["ex"]) & set(SHAPED) and e["oc"] == "ok":
+                s3_shaped[e["op"]] = s3_shaped.get(e["op"], 0) + 1
+    ctx.cov["s3_ok_events_on_shaped_annotations"] = s3_shaped
+    from harness.tlabind.core import Vacuity
+    miss = [o for o in ("index", "concat", "rconcat", "del_atom", "del_model", "set_atom", "set_model", "to_stack",
+                        "swap_atoms", "take_then_overwrite", "copy", "from_template", "del_extra")
+            if not s3_shaped.get(o)]
+    if miss:
+        raise Vacuity(f"S3: operations never recorded on an object with array-valued annotations: {miss}")
     ctx.cov["s3_index_forms"] = s3_forms
     mms = tlc_validate(ctx, traces, timeout=1800)
     for m in mms:
